@@ -10,8 +10,12 @@ Init == l = 1 /\ bad = <<>> /\ desync = <<>>
 Step == /\ l <= Len(Trace)
         /\ LET e == Trace[l] IN
            /\ l' = l + 1
-           /\ bad' = IF GenOK(e.req, e.o) THEN bad ELSE Append(bad, l)
-           /\ desync' = IF e.rterr = "" THEN desync ELSE Append(desync, l)   \* the runtime's own generator failed: corpus defect
+           /\ IF e.c = "param"
+              THEN \* one plug-in run with one parameter of the TLC-generated domain: accepted exactly when ParamOK
+                   /\ bad' = IF (e.ok = 1) <=> ParamOK(e.k, e.v) THEN bad ELSE Append(bad, l)
+                   /\ UNCHANGED desync
+              ELSE /\ bad' = IF GenOK(e.req, e.o) THEN bad ELSE Append(bad, l)
+                   /\ desync' = IF e.rterr = "" THEN desync ELSE Append(desync, l)   \* the runtime's own generator failed: corpus defect
 Spec == Init /\ [][Step]_vars
 Report == l = Len(Trace) + 1 => JsonSerialize("result.json", [n |-> Len(Trace), bad |-> bad, drift |-> <<>>, desync |-> desync])
 =============================================================================
